@@ -33,3 +33,91 @@ IS_OCCUPIED = Contract(
     frame=[],
     props=["C04"],
 )
+
+
+# ---------------------------------------------------------------- should_rerun (C03, C10)
+from contracts.node_getters import (SHARED_RESULTS, SHARED_FILTERED, STATEFUL_OBJECTS, WF_OBJECTS, WF_RESULTS, BRL, FLEN,
+                                    RES, OBJ)  # noqa: E402
+
+DECISION_OVERRIDES["TestNode.shared_results"] = by_contract(SHARED_RESULTS)
+DECISION_OVERRIDES["TestNode.shared_filtered_results"] = by_contract(SHARED_FILTERED)
+DECISION_OVERRIDES["TestNode.get_stateful_objects"] = by_contract(STATEFUL_OBJECTS)
+
+ALL_STATUSES = ["fail", "error", "pass", "warn", "skip", "cancel", "interrupted", "unknown"]
+ALL = repr(ALL_STATUSES)
+DRY = "self.params.get('dry_run', 'no') == 'yes'"
+CLONE = "len(self._cloned_nodes) > 0"
+EARLY = f"(({DRY}) or ({FLAT}) or ({CLONE}))"
+FOREIGN = "(worker is not None and worker.id not in self.params['name'])"
+REPLAY = "bool(self.params.get('replay'))"
+RERUN_LIST = (f"(self.params.get_list('rerun_status', 'fail,error,warn', ',') if {REPLAY} else "
+              f"(self.params.get_list('rerun_status', []) or {ALL}))")
+STOP_LIST = "self.params.get_list('stop_status', [])"
+MAX_TRIES_OK = "('max_tries' not in self.params or str_is_int(self.params['max_tries']))"
+MAX_TRIES = f"(str_int(self.params['max_tries']) if 'max_tries' in self.params else (2 if {REPLAY} else 1))"
+INVALID_RERUN = f"exists({RERUN_LIST}, lambda x: x not in {ALL})"
+INVALID_STOP = f"exists({STOP_LIST}, lambda x: x not in {ALL})"
+STATELESS = "len(self.get_stateful_objects()) == 0"
+COUNTED = (f"(self.shared_results if {STATELESS} else with_field(self, 'started_worker', "
+           f"ite(self.started_worker is not None, self.started_worker, worker), lambda: self.shared_filtered_results))")
+
+FILTERED_FOR_WORKER = ("with_field(self, 'started_worker', ite(self.started_worker is not None, self.started_worker, worker), "
+                       "lambda: self.shared_filtered_results)")
+VALID_PARAMS = ["'name' in self.params", "'pool_scope' in self.params"]
+
+def _present(key):
+    return {
+        "absent": [f"'{key}' not in self.params"],
+        "empty": [f"'{key}' in self.params and len(self.params['{key}']) == 0"],
+        "given": [f"'{key}' in self.params and len(self.params['{key}']) > 0"],
+    }
+
+
+SHOULD_RERUN_CASES = []
+for _replay in ("absent", "given", "empty"):
+    for _rerun in ("absent", "given", "empty"):
+        for _stop in ("absent", "given", "empty"):
+            _case = f"replay={_replay},rerun_status={_rerun},stop_status={_stop}"
+            _main = "empty" not in (_replay, _rerun, _stop)
+            SHOULD_RERUN_CASES.append(Contract(
+                target=f"{NODE}::TestNode.should_rerun",
+                name=f"TestNode.should_rerun[{_case}]",
+                case=_case,
+                tier="quick" if _main else "thorough",
+                params={"self": Ref("TestNode"), "worker": (Ref("TestWorker"), "nullable")},
+                requires=WF_NODE + [WF_OBJECTS, WF_RESULTS] + VALID_PARAMS + _present("replay")[_replay]
+                + _present("rerun_status")[_rerun] + _present("stop_status")[_stop],
+                overrides=DECISION_OVERRIDES,
+                extra_names={"filtered_len": FLEN, "bridged_results_len": BRL},
+                raises={
+                    "RuntimeError": f"not {EARLY} and {FOREIGN}",
+                    "ValueError": f"not {EARLY} and not {FOREIGN} and ({INVALID_RERUN} or {INVALID_STOP} or "
+                                  f"not {MAX_TRIES_OK} or {MAX_TRIES} < 0)",
+                },
+                ensures=[
+                    ("early_false", f"implies({EARLY}, result == False)"),
+                ] + [
+                    clause for tag, cond, lst in (
+                        ("stateless", STATELESS, "self.shared_results"),
+                        ("stateful", f"not ({STATELESS})", FILTERED_FOR_WORKER),
+                    ) for clause in (
+                        (f"{tag}.true_needs_rerun_set", f"implies(not {EARLY} and {cond} and result, "
+                                                        f"forall({lst}, lambda r: r['status'].lower() in {RERUN_LIST}))"),
+                        (f"{tag}.true_needs_no_stop", f"implies(not {EARLY} and {cond} and result, "
+                                                      f"not exists({lst}, lambda r: r['status'].lower() in {STOP_LIST}))"),
+                        (f"{tag}.true_needs_tries_left", f"implies(not {EARLY} and {cond} and result, "
+                                                         f"{MAX_TRIES} != 1 and {MAX_TRIES} - len({lst}) > 0)"),
+                        (f"{tag}.false_needs_reason", f"implies(not {EARLY} and {cond} and not result, "
+                                                      f"exists({lst}, lambda r: r['status'].lower() not in {RERUN_LIST}) or "
+                                                      f"exists({lst}, lambda r: r['status'].lower() in {STOP_LIST}) or "
+                                                      f"{MAX_TRIES} == 1 or {MAX_TRIES} - len({lst}) <= 0)"),
+                    )
+                ] + [
+                    ("restores_marker", "self.started_worker == old(self.started_worker)"),
+                ],
+                result_kind=BOOL,
+                frame=["TestNode.started_worker"],
+                props=["C10", "C03"],
+                assumes=["should_rerun is verified per configuration case (presence / emptiness of replay, rerun_status, "
+                         "stop_status); the 27 cases are exhaustive"],
+            ))
